@@ -15,7 +15,7 @@ PACKAGES = {
     "p_proto": {},
 }
 
-HOOK_COMMITS = ["5279cbd", "73ef5ac", "20fd7ae", "3d93e15", "4493d3a", "2469957"]
+HOOK_COMMITS = ["5279cbd", "73ef5ac", "20fd7ae", "3d93e15", "4493d3a", "2469957", "d8690b5"]
 
 # properties whose check is finished and registered in MANIFEST.json (the integrator adds ids here)
 CLAIMED = ["C%02d" % i for i in range(1, 21)]
